@@ -104,7 +104,7 @@ fn injection(kind: u8, variant: u8) -> Injection {
         8 => (vec![], ["#@zzq{}", "#?@zzq{2}"][v % 2].into(), Extensions::COMPONENT_MODIFIERS, "recipe modifier on cookware", Stage::Parse),
         9 => (vec![], ["#&(1)zzq{}", "#&(~1)zzq{}"][v % 2].into(), Extensions::INTERMEDIATE_PREPARATIONS, "intermediate reference on cookware", Stage::Parse),
         10 => (vec![], ["~?zzq{5%min}", "~&zzq{5%min}", "~-{5%min}"][v % 3].into(), Extensions::COMPONENT_MODIFIERS, "modifiers on timer", Stage::Parse),
-        11 => (vec![], ["@zzq|{}", "#zzq| {}", "@zzq | {1%kg}", "@zzq|\u{3000}{}", "#zzq|\u{a0}{}"][v % 5].into(), Extensions::COMPONENT_ALIAS, "empty alias", Stage::Parse),
+        11 => (vec![], ["@zzq|{}", "#zzq| {}", "@zzq | {1%kg}", "@zzq|\u{3000}{}", "#zzq|\u{a0}{}", "@zzq|[- todo -]{200%g}", "#zzq| [- todo -] {}", "@zzq|\n{1%kg}", "@zzq| -- c\n{}"][v % 9].into(), Extensions::COMPONENT_ALIAS, "empty alias", Stage::Parse),
         12 => (vec![], ["@zzq|a|b{}", "#zzq|a|b|c{}"][v % 2].into(), Extensions::COMPONENT_ALIAS, "multiple aliases", Stage::Parse),
         13 => (vec![], ["~zzq|a{5%min}", "~zzq|nap{1%h}"][v % 2].into(), Extensions::COMPONENT_ALIAS, "alias on timer", Stage::Parse),
         14 => (vec![], ["@&zzq{}", "#&zzq{}", "@&zzq{1%kg}", "@&zzq"][v % 4].into(), Extensions::COMPONENT_MODIFIERS, "dangling reference", Stage::Analysis),
